@@ -87,10 +87,12 @@ CLAIMS = {
          "P >= width no reachable non-final state is stuck and the all-inside-run state is reachable; with P < width a deadlock is "
          "reachable (the precondition is needed). tie: S8 on the REAL crate and REAL rayon pools: for every stage width 2..16 x "
          "{user pool of exactly `width` threads, user pool of 16, default pool (one thread per CPU, widths <= CPUs), inside a batch, "
-         "async dispatcher, SendDispatcher with its own pool dispatched from the only worker of ANOTHER rayon pool} all systems of the stage must be inside run simultaneously (condvar rendezvous, 5 s limit), over "
+         "async dispatcher, SendDispatcher with its own pool dispatched from the only worker of ANOTHER rayon pool, default pool driven from a foreign worker (sync and async), "
+         "async dispatch twice then wait, a batch registered before the pool is attached, a batch holding a nested batch, a stage two batches deep (pool on the outermost builder only)} all systems of the stage must be inside run simultaneously (condvar rendezvous, 5 s limit), over "
          "repeated dispatches; the model's prediction (completes iff threads >= width) is compared, incl. two deadlocking cases",
          "that rayon behaves like the model (work stealing, par_iter splitting) is runtime behaviour of a dependency: exercised, "
-         "not proved. A serialising change deadlocks the rendezvous => VIOLATION with the configuration as replay",
+         "not proved. A serialising change deadlocks the rendezvous => VIOLATION with the configuration as replay; a configuration that never comes back is reported as `hang` by a watchdog. "
+         "Genuine defect found and repaired (fix: 94c4994): a pool attached to the outermost builder did not reach batches nested two or more levels deep",
          "state-machine proof about a pool model + runtime rendezvous on the real pools (partial)", "5 C11"),
  "C12": ("proof: thread-local list = thread-local registrations in order (all programs); in EVERY trace of the executor model the "
          "thread-local windows come last, after every ordinary system has released, one at a time in registration order, on the "
@@ -207,7 +209,7 @@ def main():
                            kind_free_text="Coq 8.16 theorems about hand-written Gallina models + differential correspondence "
                                           "(Rust harness on the real crate vs extracted OCaml model) + boolean oracles on real observations")],
              checks=checks,
-             notes="fix: commits in /repo: 526450e (C20), f8d62d5 (C10), 5f7fbf8 (C13); known finding KF1 (C12, C07, C01; narrowly attributed); see known_findings.json and DESIGN.md",
+             notes="fix: commits in /repo: 526450e (C20), f8d62d5 (C10), 5f7fbf8 (C13), 94c4994 (C11); known finding KF1 (C12, C07, C01; narrowly attributed); see known_findings.json and DESIGN.md",
              not_applicable=na)
     json.dump(m, open(os.path.join(VERIF, "MANIFEST.json"), "w"), indent=1)
     print("MANIFEST.json: %d checks" % len(checks))
